@@ -120,9 +120,15 @@ def sorted_row(j, nf=5, stride=1):
     its first field and by whole rows: key groups of sizes 1, 2, 3, 1, 2, 3...
     `stride` 2 gives every second row of the stride-1 table (a sorted table
     sharing half of its rows with it)."""
+    m = j
     j = (j - 1) * stride
     key = 3 * (j // 6) + [0, 1, 1, 2, 2, 2][j % 6]
     row = [key, 'r%07d' % j, j % 10, j % 4, 'e%d' % (j % 3)]
+    if stride > 1 and m % 3 == 0:
+        # every third row of the second table occurs in the first one with
+        # another value in this column: same position in the order, not the
+        # same row
+        row[2] += 100
     return row[:nf]
 
 
